@@ -99,9 +99,12 @@ def api_stage(prop, family, tier, seed, groups=("fm", "rist"), scale=None, scale
         for mm in out["mismatches"]:
             if mm["message"].startswith("HARNESS"):
                 raise vlib.ToolError(f"harness could not build scenario {mm['index']} of {family}: {mm['message']}")
-            st.add_violation(f"[{family}/{g}] {mm['message']}",
-                             {"kind": "api", "family": family, "group": g, "seed": mm["seed"], "scale": mm["scale"], "index": mm["index"],
-                              "scenario": mm["scenario"], "message": mm["message"]})
+            rep = {"kind": "api", "family": family, "group": g, "seed": mm["seed"], "scale": mm["scale"], "index": mm["index"],
+                   "scenario": mm["scenario"], "message": mm["message"]}
+            mbs = mm["scenario"]["sc"]["members"]
+            if mm["message"].startswith("ROUNDTRIP") and len(mbs) == 1 and mbs[0]["n"] * mbs[0]["m"] == 1:
+                rep["finding_key"] = "C15-roundtrip-nm1"
+            st.add_violation(f"[{family}/{g}] {mm['message']}", rep)
     # non-vacuity: the seeded specification bug must be caught by TLC
     if negative:
         for neg in negative:
@@ -326,3 +329,52 @@ def transcript_stage(prop, tier, omits=("H", "G", "N", "T", "M", "Ci", "vi - min
 def weights_stage(prop):
     cfg = lambda pol: f'CONSTANTS Policy = "{pol}"\nSPECIFICATION Spec\nINVARIANT NoCancel\nCHECK_DEADLOCK FALSE\n'
     return simple_mc_stage(prop, "MC_Weights", cfg("bound"), [("weights_blind_to_response", cfg("nod1"), "NoCancel"), ("constant_weights", cfg("const"), "NoCancel")])
+
+
+
+# ---------------------------------------------------------------------------------------------------
+# one TLC state = one call (constructors, decoder)
+# ---------------------------------------------------------------------------------------------------
+def cases_stage(prop, module, tier, seed, groups=("fm", "rist"), invariants="", workers=8, limit=None):
+    st = StageResult("cases:" + module)
+    t0 = time.time()
+    wd = vlib.workdir(f"{prop}_cases_{module}")
+    cfg = f'CONSTANTS Tier = "{tier}"\nSPECIFICATION Spec\nINVARIANTS {invariants} Emit\nCHECK_DEADLOCK FALSE\n'
+    r = vlib.run_tlc(module, cfg, wd, workers=workers, timeout=3000)
+    if not r["ok"]:
+        raise vlib.ToolError(f"{module}: specification-level failure {r['violated']}\n" + r["out"][-2500:])
+    st.states += r["distinct"]
+    st.transitions += r["generated"]
+    cases = vlib.replay_lines(r["out"])
+    cases.sort(key=lambda c: json.dumps(c, sort_keys=True))
+    rng = random.Random(seed)
+    if limit and len(cases) > limit:
+        cases = rng.sample(cases, limit)
+    path = os.path.join(wd, "cases.ndjson")
+    with open(path, "w") as fh:
+        for c in cases:
+            fh.write(json.dumps(c) + "\n")
+    for c in cases:
+        st.distinct.add(vlib.digest(c))
+    st.samples += [cases[i] for i in sorted(rng.sample(range(len(cases)), min(3, len(cases))))]
+    st.notes["cases"] = len(cases)
+    st.notes["outcome_classes"] = {}
+    for g in groups:
+        out = json.loads(vlib.run_harness(["cases", "--cases", path, "--group", g, "--seed", str(seed)], timeout=3000))
+        st.evaluations += out["executed"]
+        st.traces += out["executed"]
+        st.notes["outcome_classes"][g] = out["classes"]
+        for mm in out["mismatches"]:
+            st.add_violation(f"[{module}/{g}] {mm['message']}", {"kind": "case", "group": g, "seed": mm["seed"], "index": mm["index"], "case": mm["case"], "message": mm["message"]})
+    st.notes["exhaustive"] = limit is None
+    st.wall = time.time() - t0
+    return st
+
+
+def replay_case(rep):
+    wd = vlib.workdir("replay_case")
+    path = os.path.join(wd, "cases.ndjson")
+    with open(path, "w") as fh:
+        fh.write(json.dumps(rep["case"]) + "\n")
+    out = json.loads(vlib.run_harness(["cases", "--cases", path, "--group", rep["group"], "--seed", str(rep["seed"]), "--first-index", str(rep["index"])]))
+    return out["mismatches"]
